@@ -321,7 +321,7 @@ def rx(kind, pat, s):
     p = cur()
     p.assume(SBool(z3.Implies(R["fullmatch"](pz, sz), R["match"](pz, sz))))
     p.assume(SBool(z3.Implies(R["match"](pz, sz), R["search"](pz, sz))))
-    if isinstance(pat, Fmt) and len(pat.parts) == 3 and isinstance(pat.parts[1], (SStr, str)):
+    if getattr(pat, "parts", None) is not None and len(pat.parts) == 3 and isinstance(pat.parts[1], (SStr, str)):
         a, lit, b = pat.parts
         lz = PL._term(lit)
         premise = RX_LITERAL(lz)
